@@ -128,7 +128,7 @@ def run_http(case) -> list[Failure]:
         if scheme == "https":
             from vlib import nulltls
 
-            ctx = nulltls.NullContext()
+            ctx = nulltls.NullTLSContext("c19")
             pool = urllib3.HTTPSConnectionPool("h.test", 443, retries=False, ssl_context=ctx, **pool_kw)
         else:
             pool = urllib3.HTTPConnectionPool("h.test", 80, retries=False, **pool_kw)
@@ -188,12 +188,12 @@ def run_http(case) -> list[Failure]:
             if sid is None:
                 fails.append(Failure("harness-shape", {**sig_base, "what": "no-send"}, f"{case}: nothing was sent; outcome {outcome}"))
                 return fails
-            seen_send = False
+            # the response wait = the first read after the LAST write of the request (with https the null-TLS
+            # handshake writes and reads one marker record before the request is sent)
+            last_send = max(i for i, e in enumerate(evs) if e[0] == "send" and e[1] == sid)
             wait_to = "none"
-            for e in evs:
-                if e[0] == "send" and e[1] == sid:
-                    seen_send = True
-                elif seen_send and e[1] == sid and e[0] in ("recv", "recv-wait", "recv-eof", "recv-exc"):
+            for e in evs[last_send + 1 :]:
+                if e[1] == sid and e[0] in ("recv", "recv-wait", "recv-eof", "recv-exc"):
                     wait_to = e[-1] if e[0] in ("recv", "recv-wait") else "n/a"
                     break
             if exp_read is not None and exp_read <= 0:
